@@ -735,6 +735,14 @@ func replay(in *core.Lines, args []string, seed int64, sum *core.Summary) error 
 		}
 		rels[c.Rel+"/"+c.Expect]++
 		switch c.Fam {
+		case "pow":
+			if err := runPow(b, sum); err != nil {
+				return fmt.Errorf("line %d: %v", in.N, err)
+			}
+		case "triprod":
+			if err := runTriProd(b, sum); err != nil {
+				return fmt.Errorf("line %d: %v", in.N, err)
+			}
 		case "mat", "matdiff":
 			if kinds["dense"] && !strings.HasPrefix(c.Method, "CDense") {
 				runDense(c, seed, sum)
